@@ -408,6 +408,10 @@ def job_comparison(job, filt):
         job.prove(f"comparison[filter={filt}]/reach[path{k}]", pr.pc, expect="sat")
 
 
+# concrete replays run on the real code when the changed code uses something the engine does not model (harness.finish)
+FALLBACK = [(replay_plot, {}), (replay_plot_after_density, {}), (replay_transform, {}), (replay_comparison, {}), (replay_comparison, {"filt": True})]
+
+
 def jobs(tier):
     out = [("profiles", lambda j: job_profiles(j, 3, 4)), ("recovery-plots", lambda j: job_recovery_plots(j, 4)), ("transform", job_transform),
            ("comparison-filter", lambda j: job_comparison(j, True)), ("comparison-nofilter", lambda j: job_comparison(j, False))]
